@@ -408,7 +408,7 @@ package raft
 //@ ensures forall i int :: 0 <= i && i < old(len(r.msgs)) ==> r.msgs[i].Type == old(r.msgs[i].Type) && r.msgs[i].To == old(r.msgs[i].To) && r.msgs[i].Reject == old(r.msgs[i].Reject) && r.msgs[i].Term == old(r.msgs[i].Term) && r.msgs[i].Hint == old(r.msgs[i].Hint) && r.msgs[i].HintHigh == old(r.msgs[i].HintHigh)
 
 // one vote per term (V2) and the election restriction
-//@ func (r *raft) handleNodeRequestVote [C03]
+//@ func (r *raft) handleNodeRequestVote [C03 C02]
 //@ requires r.wf() && (m.Term == 0 || m.Term == r.term)
 //@ modifies r.electionTick, r.vote, r.msgs, elems(r.msgs[len(r.msgs):])
 //@ ensures result == nil ==> len(r.msgs) == old(len(r.msgs)) + 1 && r.msgs[len(r.msgs) - 1].Type == pb.RequestVoteResp && r.msgs[len(r.msgs) - 1].To == m.From
@@ -862,6 +862,18 @@ package raft
 // the confirmations recorded for this context plus the leader itself reach quorum()
 //@ ensures len(r.readyToRead) + len(r.msgs) > old(len(r.readyToRead)) + old(len(r.msgs)) ==> len(old(r.readIndex.pending[mk(pb.SystemCtx, m.Hint, m.HintHigh)]).confirmed) + 1 >= (len(r.remotes) + len(r.witnesses)) / 2 + 1
 //@ loop 1 invariant len(r.readyToRead) + len(r.msgs) <= old(len(r.readyToRead)) + old(len(r.msgs)) + $i + 1 && len(r.readyToRead) >= old(len(r.readyToRead)) && len(r.msgs) >= old(len(r.msgs))
+
+// C02 (a committed entry is never replaced; nothing unverified is ever marked committed): when a
+// snapshot is not restored, the commit index moves -- to the snapshot's index -- only if the local log
+// holds an entry with the snapshot's index AND term; a local tail that merely reaches that index
+// (a stale, divergent one) is never marked committed
+//@ func (r *raft) restore [C02 C19]
+//@ noframe
+//@ nobounds
+//@ requires r.wf() && ss.Index < MaxUint64
+//@ ensures result1 == nil && !result0 && r.log.committed != old(r.log.committed) ==> r.log.committed == ss.Index && old(r.log.termAt(ss.Index)) == ss.Term
+//@ ensures result0 ==> r.log.committed == ss.Index && r.log.lastIdx() == ss.Index
+//@ ensures r.log.committed >= old(r.log.committed)
 
 // An InstallSnapshot is always answered with the follower's COMMIT index (after a restore that is
 // the snapshot's index, otherwise whatever was committed before): the acknowledged index raises the
